@@ -1521,6 +1521,9 @@ class Method:
                 "createchannel",
                 "grpcchannel",
                 "operationsclient",
+                # Every transport defines `close()` and the `kind` property.
+                "close",
+                "kind",
             },
             keyword.kwlist,
         )
